@@ -157,10 +157,15 @@ def families(tier, seed=0):
         cnt[0] += 1
 
     two = [("P0", None, None), ("P1", None, None)]
-    # F1: id modes on 3 (thorough: also 4) archetypes
+    # F1: id modes on 3 (thorough: also 4, and 3 over a wider value set) archetypes
+    wide = [None, 0, 2, 127, 128, 200, 253, 254, 255]
     for n in ((3, 4) if tier != "quick" else (3,)):
         for m in itertools.product(ID_MODES, repeat=n):
             add("WA", [("A%d" % j, m[j], None, list(two)) for j in range(n)])
+    if tier != "quick":
+        for m in itertools.product(wide, repeat=3):
+            add("WA", [("A%d" % j, m[j], None, list(two)) for j in range(3)] + [("A3", None, None, list(two)), ("A4", None, None, list(two))])
+            add("WC", [("A0", 3, None, [("P%d" % j, m[j], None) for j in range(3)] + [("P3", None, None), ("P4", None, None)])])
     # F2: id modes on 3 (thorough: 4) components; a second archetype restarts the numbering
     for n in ((3, 4) if tier != "quick" else (3,)):
         for m in itertools.product(ID_MODES, repeat=n):
@@ -289,6 +294,7 @@ QWORLDS = {
            ("Bee", None, [("Po", "not(all())"), "Vel", ("Pos", "not(any())")])],
     "W4": [("Ar", None, ["Po", "Pos"])],
     "W5": [("Bee", None, ["Vel", "PosX"]), ("ArcX", "not(any())", ["PosX", "Pos", "Po"]), ("Arc", None, ["Pos"]), ("Ar", "any(any())", ["Po"])],
+    "W6": [("Ar", None, ["Po"]), ("Arc", None, ["Pos"]), ("ArcX", None, ["PosX"]), ("Bee", None, ["Vel"]), ("BeeX", None, ["Po", "Vel"]), ("ArB", None, ["Pos", "PosX"]), ("Be", None, ["Vel", "Pos"])],
 }
 KINDS = ["ecs_iter", "ecs_iter_borrow", "ecs_iter_destroy", "ecs_find", "ecs_find_borrow"]
 
@@ -317,13 +323,13 @@ def gen_queries(wname, rng, count, with_cfg):
     archs = [a for a, _ in world_enabled(wname)]
     a_comp = [("c", c, m) for c in COMPS for m in (False, True)]
     a_ent = [("ew",), ("ea",), ("dw",), ("da",)] + [(k, a) for a in archs for k in ("et", "dt")]
-    a_of = [("of", cs, False) for n in (2, 3) for cs in itertools.permutations(COMPS, n)]
+    a_of = [("of", cs, False) for n in (2, 3, 4) for cs in itertools.permutations(COMPS, n)]
     out = []
     seen = set()
     guard = 0
     while len(out) < count and guard < count * 50:
         guard += 1
-        n = rng.choice([1, 1, 2, 2, 2, 3, 3, 4])
+        n = rng.choice([1, 1, 2, 2, 2, 3, 3, 4, 5])
         ps = []
         used = set()
         for _ in range(n):
